@@ -129,14 +129,18 @@ class JsonTypestate:
         while changed:
             changed = False
             for fn in self.fns:
-                if fn.name.startswith('parse_') and fn.cls is None:
-                    continue        # the parse functions are entry points of their own: their elements are documents
+                entry = fn.name.startswith('parse_') and fn.cls is None
+                # the parse functions are entry points of their own: their elements are documents - except a parameter that is
+                # declared to be a class / a function (`kind: type`, `item_parser: Callable[..]`): no document value is one
                 ss = sites.get(fn.fq, [])
                 if not ss:
                     continue
                 for a in fn.params():
                     key = (fn.fq, a.arg)
                     if a.arg in ('self', 'cls') or key in config:
+                        continue
+                    if entry and not (a.annotation is not None and ast.unparse(a.annotation).split('[')[0].split('.')[-1] in
+                                      ('type', 'Type', 'Callable', 'EnumMeta', 'EnumType')):
                         continue
                     args = []
                     for g, c, t in ss:
